@@ -228,6 +228,15 @@ def const_eval(e: ast.expr | None, mod: ast.Module | None, depth: int = 0):
             else:
                 res2.append((k, v))
         return ("dict", res2)
+    if isinstance(e, ast.Subscript):
+        # CONST_DICT["literal key"]
+        base = ev(e.value)
+        key = ev(e.slice)
+        if isinstance(base, tuple) and base and base[0] == "dict" and isinstance(key, str):
+            for k, v in base[1]:
+                if k == key:
+                    return v
+        raise _NotConst()
     if isinstance(e, ast.BinOp) and isinstance(e.op, ast.BitOr):
         a, b = ev(e.left), ev(e.right)
         if isinstance(a, tuple) and isinstance(b, tuple) and a and b and a[0] == b[0] == _ORDERED_SET:
@@ -565,12 +574,17 @@ def main(repo: str, outpath: str) -> int:
             for node in ast.walk(init):
                 if (isinstance(node, ast.Call) and isinstance(node.func, ast.Attribute)
                         and node.func.attr == "_validate_dicts" and len(node.args) == 2
-                        and isinstance(node.args[0], ast.Name) and isinstance(node.args[1], ast.List)):
-                    ks = [const_str(e) for e in node.args[1].elts]
-                    if all(k is not None for k in ks):
-                        req_keys.append((node.args[0].id, [k for k in ks if k is not None]))
+                        and isinstance(node.args[0], ast.Name)):
+                    try:
+                        ks = const_eval(node.args[1], core)
+                    except _NotConst:
+                        ks = None
+                    if isinstance(ks, tuple) and ks and ks[0] == _ORDERED_SET:
+                        ks = None                     # a set has no order to check keys in
+                    if isinstance(ks, list) and all(isinstance(k, str) for k in ks):
+                        req_keys.append((node.args[0].id, list(ks)))
                     else:
-                        unrec("HTMLDependency.__init__: non-literal required-key list")
+                        unrec("HTMLDependency.__init__: required-key list is not a constant list of strings")
     if core is not None and find_class(core, "HTMLDependency") is not None:
         dep = find_class(core, "HTMLDependency")
         # `"href" in source` / `"subdir" in source`: in __init__ or in a validation helper it calls
